@@ -139,8 +139,12 @@ func extraC19(c *Ctx) {
 	// no break/continue/return inside the loop
 	early := false
 	ast.Inspect(loop.Body, func(n ast.Node) bool {
-		switch n.(type) {
-		case *ast.BranchStmt, *ast.ReturnStmt:
+		switch x := n.(type) {
+		case *ast.BranchStmt:
+			if x.Tok != token.CONTINUE {
+				early = true // break / goto: later messages would be dropped
+			}
+		case *ast.ReturnStmt:
 			early = true
 		}
 		return true
@@ -200,9 +204,19 @@ func extraC19(c *Ctx) {
 	c.Check("C19-R4", f.Key()+" merges only consecutive messages of the same role", c.Pos(loop), okRole, "")
 	// system collection: a top-level `if msg.Role == "system" { system = append(system, msg.Content) }`
 	okSys := false
+	skipped := false // a statement before the collection can leave the iteration
 	for _, st := range loop.Body.List {
 		is, ok := st.(*ast.IfStmt)
 		if !ok || is.Init != nil {
+			ast.Inspect(st, func(x ast.Node) bool {
+				switch x.(type) {
+				case *ast.BranchStmt, *ast.ReturnStmt:
+					if !okSys {
+						skipped = true
+					}
+				}
+				return true
+			})
 			continue
 		}
 		be, ok := ast.Unparen(is.Cond).(*ast.BinaryExpr)
@@ -219,13 +233,37 @@ func extraC19(c *Ctx) {
 			}
 		}
 	}
+	// other if statements before the collection that can leave the iteration
+	for _, st := range loop.Body.List {
+		is, ok := st.(*ast.IfStmt)
+		if !ok {
+			continue
+		}
+		isColl := false
+		if be, isB := ast.Unparen(is.Cond).(*ast.BinaryExpr); isB && be.Op == token.EQL && selName(be.X) == "Role" {
+			if v, isC := core.ConstString(info, be.Y); isC && v == "system" {
+				isColl = true
+			}
+		}
+		if isColl {
+			break
+		}
+		ast.Inspect(is, func(x ast.Node) bool {
+			switch x.(type) {
+			case *ast.BranchStmt, *ast.ReturnStmt:
+				skipped = true
+			}
+			return true
+		})
+	}
+	okSys = okSys && !skipped
 	joined := false
 	for _, ex := range g.Returns() {
 		if len(ex.Return.Results) == 2 && len(core.CallsTo(info, ex.Return.Results[0], false, "strings.Join")) == 1 {
 			joined = true
 		}
 	}
-	c.Check("C19-R4", f.Key()+" every system message reaches the system string", c.Pos(loop), okSys && joined, "")
+	c.Check("C19-R4", f.Key()+" every system message reaches the system string", c.Pos(loop), okSys && joined, "the loop body must collect msg.Content of every system message before anything can leave the iteration (a merged system message must still reach .System)")
 	// Execute renders with the collated result
 	if ef := c.Fn("C19-R4", "template", "Template.Execute"); ef != nil {
 		eg := c.G(ef)
